@@ -15,7 +15,13 @@ Reading of the source
 * `if cond: raise ...` guards and `assert` statements are dropped (the models state these as preconditions),
   unless the raise is the only way out of an else-branch, in which case the branch yields `default_on_raise`;
 * `int(e)` truncates toward zero, `math.ceil`/`np.ceil` and `//` are exact on rationals, `round` is not accepted;
-* float literals are the exact doubles.
+* float literals are the exact doubles;
+* (round 4, C09) `math.log(x, 2)` / `math.log2(x)` / `np.log2(x)` of a VARIABLE `x` (or its elementwise selection
+  `x[mask]`) becomes the parameter `x_log2` -- the counterpart of the `2 ** x` rule: the logarithm of the value `x`
+  holds at that point is an input of the model, which only decides WHETHER the logarithm or a sentinel is reported;
+  accepted at most once per function;
+* (round 4, C09) a masked plain assignment `x[mask] = e` (mask = a comparison bound to a name) reads "where mask holds
+  x becomes e", like the masked augmented assignment.
 """
 from __future__ import annotations
 
@@ -132,6 +138,17 @@ class Fn:
                 return f"(if {x} < 0 then ((({x}).ceil : Int) : Rat) else ((({x}).floor : Int) : Rat))"
             if f == "float" and len(args) == 1:
                 return self.expr(args[0], env)
+            if (f == "math.log" and len(args) == 2 and isinstance(args[1], ast.Constant) and args[1].value == 2) \
+                    or (f in ("math.log2", "np.log2") and len(args) == 1):
+                a = args[0]
+                if isinstance(a, ast.Subscript) and isinstance(a.value, ast.Name) and isinstance(a.slice, ast.Name):
+                    a = a.value
+                if not isinstance(a, ast.Name) or e.keywords:
+                    raise Untranslatable("logarithm of something that is not a variable: " + ast.unparse(e))
+                if getattr(self, "_log2_seen", None) not in (None, a.id):
+                    raise Untranslatable("a second logarithm: " + ast.unparse(e))
+                self._log2_seen = a.id
+                return self.param(a.id + "_log2")
             if isinstance(e.func, ast.Name) and e.func.id in self.callees and not e.keywords:
                 # a call to another plain function of the same module is inlined: its parameters are renamed to
                 # the caller's variables when the arguments are plain parameters, bound as locals otherwise
@@ -228,6 +245,14 @@ class Fn:
                     return self.block(rest, env)
                 env = dict(env)
                 env[t.id] = self.expr(s.value, env)
+                return self.block(rest, env)
+            if isinstance(t, ast.Subscript) and isinstance(t.value, ast.Name) and isinstance(t.slice, ast.Name):
+                mask = env.get(t.slice.id, "")
+                if not mask.startswith("MASK:"):
+                    raise Untranslatable("masked assignment with a mask that is not a comparison: " + ast.unparse(s))
+                env = dict(env)
+                cur = self.expr(t.value, env)
+                env[t.value.id] = f"(if {mask[5:]} then {self.expr(s.value, env)} else {cur})"
                 return self.block(rest, env)
             raise Untranslatable("assignment to " + ast.unparse(t))
         if isinstance(s, ast.AugAssign):
